@@ -112,9 +112,12 @@ pub fn main_for(
 		}
 		"exec" => {
 			let stdin = std::io::stdin();
-			for line in stdin.lock().lines() {
+			// answers are flushed every 64 requests: `./check` watches the stream and stops an implementation that no longer answers
+			// (a request that loops forever); the culprit is then among the few requests after the last answer that arrived
+			for (k, line) in stdin.lock().lines().enumerate() {
 				let line = line.expect("read");
 				writeln!(w, "{}", answer_line(exec, &line)).expect("write");
+				if k % 64 == 63 { w.flush().expect("flush"); }
 			}
 		}
 		_ => { eprintln!("usage: gen|exec"); std::process::exit(2); }
